@@ -63,6 +63,11 @@ def lit_str(s):
     return {"str": s}
 
 
+def lit_esc(idl_text, value):
+    """A string literal whose IDL text (between the quotes) uses escapes; `value` is the string it denotes."""
+    return {"str": value, "idl": idl_text}
+
+
 # ------------------------------------------------------------------ IDL rendering
 def ty_idl(t):
     ann = ""
@@ -87,7 +92,7 @@ def lit_idl(l):
     if "dbl" in l:
         return l["dbl"]
     if "str" in l:
-        return '"' + l["str"] + '"'
+        return '"' + l.get("idl", l["str"]) + '"'
     if "enum" in l:
         return l["enum"]
     if "const" in l:
@@ -389,6 +394,8 @@ DEFAULT_LITERALS = [
     ("enum", {"enum": "E1.B"}), ("enum", {"enum": "E1.C"}), ("enum", {"int": 5, "as": "enum"}), ("enum", {"int": 300, "as": "enum"}),
     ("td-i32", lit_int(44)), ("td-str", lit_str("td")), ("td-td-i32", lit_int(-45)), ("td-td-str", lit_str("tdtd")),
     ("td-enum", {"enum": "E1.B"}), ("td-enum", {"int": 300, "as": "enum"}),
+    ("string", lit_esc("line\\nbreak", "line\nbreak")), ("string", lit_esc("back\\\\slash", "back\\slash")),
+    ("list-string", {"list": [lit_esc("a\\nb", "a\nb"), lit_str("c")]}),
     ("td-list", {"list": [lit_str("p"), lit_str("q")]}), ("td-map", {"map": [[lit_str("k"), lit_int(7)]]}),
     ("list-i32", {"list": [lit_int(1), lit_int(2)]}), ("list-i32", {"list": []}), ("list-i64", {"list": [lit_int(1099511627776)]}),
     ("list-double", {"list": [{"int": 16777217}, lit_dbl("2.5")]}), ("list-string", {"list": [lit_str("a"), lit_str("b")]}),
